@@ -35,6 +35,10 @@ pub enum Who {
     Disabled,
     Unknown,
     NoKey,
+    /// a SECOND enabled key of tenant alpha (only present in `evolve` cases)
+    Alpha2,
+    /// a tenant whose key is added to the key file at the restart inside an `evolve` case
+    Delta,
 }
 
 impl Who {
@@ -44,7 +48,17 @@ impl Who {
             Who::Beta => Some("beta"),
             Who::Gamma => Some("gamma"),
             Who::Admin => Some("root"),
+            Who::Alpha2 => Some("alpha"),
+            Who::Delta => Some("delta"),
             _ => None,
+        }
+    }
+    /// the tenant principal whose model / solo world this caller belongs to
+    pub fn principal(self) -> Who {
+        if self == Who::Alpha2 {
+            Who::Alpha
+        } else {
+            self
         }
     }
     pub fn key(self) -> Option<String> {
@@ -56,6 +70,8 @@ impl Who {
             Who::Disabled => Some(key_for("ghost", 0xe5)),
             Who::Unknown => Some(key_for("nobody", 0xf6)),
             Who::NoKey => None,
+            Who::Alpha2 => Some(key_for("alpha", 0xa9)),
+            Who::Delta => Some(key_for("delta", 0xd7)),
         }
     }
     /// index assigned by the server: sorted enabled tenant ids
@@ -65,6 +81,9 @@ impl Who {
             Who::Beta => Some(1),
             Who::Gamma => Some(2),
             Who::Admin => Some(3),
+            Who::Alpha2 => Some(0),
+            // registered after the first boot: next free index
+            Who::Delta => Some(4),
             _ => None,
         }
     }
@@ -111,6 +130,11 @@ pub struct Case {
     /// and deletes fill the graph with tombstones and inserts trigger tombstone compaction
     #[serde(default)]
     pub small_index: bool,
+    /// the key file changes over the server's life: tenant alpha starts with TWO enabled keys and
+    /// a new tenant (delta) is added at the restart; isolation must hold for the index the
+    /// server assigns to the newcomer
+    #[serde(default)]
+    pub evolve: bool,
 }
 
 pub struct C10;
@@ -231,18 +255,24 @@ struct World {
 }
 
 impl World {
-    fn start(cosine: bool, small_index: bool, root: &std::path::Path, shard: usize) -> Result<World, Failure> {
+    fn start(cosine: bool, small_index: bool, evolve: bool, root: &std::path::Path, shard: usize) -> Result<World, Failure> {
         let mut cfg = SrvCfg::default_for(DIM, if cosine { "cosine" } else { "euclidean" }, true, 1_000_000);
         if small_index {
             cfg.max_elements = 20;
+        }
+        if evolve {
+            cfg.tenants.push(crate::common::srv::TenantSpec { id: "alpha", key: Who::Alpha2.key().unwrap(), max_vectors: 1_000_000, max_qps: 0, admin: false, enabled: true });
         }
         let mut srv = Server::new(cfg, root, shard);
         srv.start().map_err(|e| Failure::new("setup_failed", e))?;
         Ok(World { srv })
     }
 
-    fn restart(&mut self) -> Result<(), Failure> {
+    fn restart(&mut self, evolve: bool) -> Result<(), Failure> {
         self.srv.stop_term();
+        if evolve && !self.srv.cfg.tenants.iter().any(|t| t.id == "delta") {
+            self.srv.cfg.tenants.push(crate::common::srv::TenantSpec { id: "delta", key: Who::Delta.key().unwrap(), max_vectors: 1_000_000, max_qps: 0, admin: false, enabled: true });
+        }
         self.srv.start().map_err(|e| Failure::new("restart_failed", format!("server does not come back after SIGTERM: {}", e)))
     }
 
@@ -396,19 +426,23 @@ impl Prop for C10 {
         let cosine = t.chance(100);
         let restart_sel = t.u8();
         let small_index = t.chance(100);
+        let evolve = t.chance(64);
         let rpcs: Vec<Rpc> = raw
             .chunks
             .iter()
             .map(|c| {
                 let mut t = Tape::new(c);
-                let who = match t.weighted(&[10, 10, 3, 1, 1, 1, 1]) {
+                let weights: &[u32] = if evolve { &[6, 6, 2, 7, 1, 1, 1, 3, 8] } else { &[10, 10, 3, 1, 1, 1, 1, 0, 1] };
+                let who = match t.weighted(weights) {
                     0 => Who::Alpha,
                     1 => Who::Beta,
                     2 => Who::Gamma,
                     3 => Who::Admin,
                     4 => Who::Disabled,
                     5 => Who::Unknown,
-                    _ => Who::NoKey,
+                    6 => Who::NoKey,
+                    7 => Who::Alpha2,
+                    _ => Who::Delta,
                 };
                 let ns = |t: &mut Tape| t.pick(NSS).to_string();
                 let weights: &[u32] = if small_index { &[30, 6, 4, 4, 3, 6, 1, 3, 4, 2, 5, 1, 1] } else { &[14, 3, 2, 8, 4, 12, 2, 4, 4, 2, 3, 1, 2] };
@@ -430,24 +464,33 @@ impl Prop for C10 {
                 Rpc { who, kind }
             })
             .collect();
-        let restart_at = if restart_sel < 50 && !rpcs.is_empty() { Some(restart_sel as usize % rpcs.len()) } else { None };
-        Case { cosine, rpcs, restart_at, small_index }
+        let restart_at = if evolve && !rpcs.is_empty() {
+            // the newcomer's key is added at a restart in the first half of the case
+            Some(restart_sel as usize % (rpcs.len() / 2).max(1))
+        } else if restart_sel < 50 && !rpcs.is_empty() {
+            Some(restart_sel as usize % rpcs.len())
+        } else {
+            None
+        };
+        Case { cosine, rpcs, restart_at, small_index, evolve }
     }
 
     fn run(&self, case: &Case, env: &CaseEnv) -> Result<CaseReport, Failure> {
         let shard = SHARD.with(|s| *s);
         let mut rep = CaseReport::default();
         // ---------------- world 1: everybody --------------------------------------------------
-        let mut w = World::start(case.cosine, case.small_index, &env.dir("w_all"), shard)?;
+        let mut w = World::start(case.cosine, case.small_index, case.evolve, &env.dir("w_all"), shard)?;
         let mut models: BTreeMap<Who, TenantModel> = BTreeMap::new();
         let mut responses: Vec<Value> = vec![];
         let mut exhaustive_tier = true; // every document still in the recent-write tier
         let mut exhaustive_at: Vec<bool> = vec![];
         let mut same_id_written_by: BTreeMap<u64, std::collections::BTreeSet<Who>> = BTreeMap::new();
         let mut collided = false;
+        let mut restarted = false;
         for (i, rpc) in case.rpcs.iter().enumerate() {
             if case.restart_at == Some(i) {
-                w.restart()?;
+                w.restart(case.evolve)?;
+                restarted = true;
                 exhaustive_tier = false;
                 rep.label("restart");
             }
@@ -456,6 +499,19 @@ impl Prop for C10 {
             }
             exhaustive_at.push(exhaustive_tier);
             let resp = w.exec(rpc, case.cosine)?;
+            // who the caller IS for the oracles: alpha's second key is alpha; delta's key is an
+            // unknown key until the restart that adds it (and in cases that never add it)
+            let judged_who = match rpc.who {
+                Who::Alpha2 if case.evolve => Who::Alpha,
+                Who::Alpha2 => Who::Unknown,
+                Who::Delta if case.evolve && restarted => Who::Delta,
+                Who::Delta => Who::Unknown,
+                w => w,
+            };
+            let judged = Rpc { who: judged_who, kind: rpc.kind.clone() };
+            let rpc_orig = rpc;
+            let rpc = &judged;
+            let _ = rpc_orig;
             judge_against_model(i, rpc, &resp, &mut models, case.cosine).map_err(|mut f| {
                 f.msg = format!("rpc {} {:?} by {:?}: {}", i, kind_name(&rpc.kind), rpc.who, f.msg);
                 f
@@ -476,19 +532,19 @@ impl Prop for C10 {
         drop(w);
         // ---------------- worlds 2, 3: one tenant alone (non-interference) -----------------------
         for solo in [Who::Alpha, Who::Beta] {
-            if !case.rpcs.iter().any(|r| r.who == solo) {
+            if !case.rpcs.iter().any(|r| r.who.principal() == solo) {
                 continue;
             }
-            let others_wrote = case.rpcs.iter().any(|r| r.who != solo && r.who.tenant().is_some() && matches!(r.kind, Kind::Insert(_) | Kind::BulkInsert(_) | Kind::BulkLoad(_)));
+            let others_wrote = case.rpcs.iter().any(|r| r.who.principal() != solo && r.who.tenant().is_some() && matches!(r.kind, Kind::Insert(_) | Kind::BulkInsert(_) | Kind::BulkLoad(_)));
             if !others_wrote {
                 continue;
             }
-            let mut w = World::start(case.cosine, case.small_index, &env.dir(&format!("w_{:?}", solo)), shard)?;
+            let mut w = World::start(case.cosine, case.small_index, case.evolve, &env.dir(&format!("w_{:?}", solo)), shard)?;
             for (i, rpc) in case.rpcs.iter().enumerate() {
                 if case.restart_at == Some(i) {
-                    w.restart()?;
+                    w.restart(case.evolve)?;
                 }
-                if rpc.who != solo {
+                if rpc.who.principal() != solo || (rpc.who == Who::Alpha2 && !case.evolve) {
                     continue;
                 }
                 let alone = w.exec(rpc, case.cosine)?;
